@@ -47,6 +47,14 @@ type Case struct {
 	AddErr []bool `json:"add_err"`
 	Obs    []Obs  `json:"obs"`
 	Engine bool   `json:"engine,omitempty"` // executed through the whole engine (order not forced)
+	// results that read differently after the later transactions of the batch were looked up
+	Mutated []Mutated `json:"mutated,omitempty"`
+}
+
+// Mutated: the held result of transaction Index changed to After.
+type Mutated struct {
+	Index int   `json:"index"`
+	After []int `json:"after"`
 }
 
 func flowName(id int) string { return "f" + string(rune('0'+id/10)) + string(rune('0'+id%10)) }
